@@ -1350,6 +1350,22 @@ template <> struct OrdDom<double> {
   }
   static const char* name() { return "double"; }
 };
+// boundary values of the integer types (the generated trees use the small domain -2..6 only)
+template <> struct OrdDom<int> {
+  static constexpr int N = 8;
+  static int at(int i) { static const int v[N] = {std::numeric_limits<int>::min(), -65536, -256, -1, 0, 255, 65536, std::numeric_limits<int>::max()}; return v[i]; }
+  static const char* name() { return "int"; }
+};
+template <> struct OrdDom<long long> {
+  static constexpr int N = 8;
+  static long long at(int i) { static const long long v[N] = {std::numeric_limits<long long>::min(), -(1LL << 40), -1, 0, 1, 1LL << 31, 1LL << 40, std::numeric_limits<long long>::max()}; return v[i]; }
+  static const char* name() { return "long long"; }
+};
+template <> struct OrdDom<unsigned> {
+  static constexpr int N = 8;
+  static unsigned at(int i) { static const unsigned v[N] = {0u, 1u, 255u, 256u, 65535u, 65536u, 1u << 31, std::numeric_limits<unsigned>::max()}; return v[i]; }
+  static const char* name() { return "unsigned"; }
+};
 template <> struct OrdDom<PO> {
   static constexpr int N = 8;
   static PO at(int i) { return PO{static_cast<unsigned>(i)}; }
@@ -1396,7 +1412,7 @@ static bool ord_laws_one(int rel, int ix, int iv, bool typed, std::string& why) 
   });
 }
 static bool ord_laws_all(std::string& why, int only_t = -1, int only_rel = -1, int only_x = -1, int only_v = -1, int only_typed = -1) {
-  for (int t = 0; t < 2; ++t) {
+  for (int t = 0; t < 5; ++t) {
     if (only_t >= 0 && t != only_t) continue;
     for (int rel = 0; rel < 6; ++rel) {
       if (only_rel >= 0 && rel != only_rel) continue;
@@ -1407,9 +1423,11 @@ static bool ord_laws_all(std::string& why, int only_t = -1, int only_rel = -1, i
           for (int typed = 0; typed < 2; ++typed) {
             if (only_typed >= 0 && typed != only_typed) continue;
             ST.evaluations++;
-            bool unordered = t == 0 ? (ix == 7 || iv == 7) : !(OrdDom<PO>::at(ix) <= OrdDom<PO>::at(iv)) && !(OrdDom<PO>::at(ix) >= OrdDom<PO>::at(iv));
-            ST.label(unordered ? "relational_on_unordered_pair" : "relational_on_ordered_pair_of_partial_domain");
-            bool good = t == 0 ? ord_laws_one<double>(rel, ix, iv, typed != 0, why) : ord_laws_one<PO>(rel, ix, iv, typed != 0, why);
+            bool unordered = t == 0 ? (ix == 7 || iv == 7) : t == 1 ? !(OrdDom<PO>::at(ix) <= OrdDom<PO>::at(iv)) && !(OrdDom<PO>::at(ix) >= OrdDom<PO>::at(iv)) : false;
+            ST.label(t >= 2 ? "relational_on_integer_boundary_values" : unordered ? "relational_on_unordered_pair" : "relational_on_ordered_pair_of_partial_domain");
+            bool good = t == 0 ? ord_laws_one<double>(rel, ix, iv, typed != 0, why) : t == 1 ? ord_laws_one<PO>(rel, ix, iv, typed != 0, why)
+                      : t == 2 ? ord_laws_one<int>(rel, ix, iv, typed != 0, why) : t == 3 ? ord_laws_one<long long>(rel, ix, iv, typed != 0, why)
+                      : ord_laws_one<unsigned>(rel, ix, iv, typed != 0, why);
             if (!good) {
               why += "\nordlaw " + std::to_string(t) + " " + std::to_string(rel) + " " + std::to_string(ix) + " " + std::to_string(iv) + " " + std::to_string(typed);
               return false;
